@@ -151,11 +151,23 @@ def gen(seed, run, tier='quick'):
     n_ops = rng.randrange(3, (2 * MAX_OPS if deep else MAX_OPS) + 1)
     ops = []
     used_primes = set()
+    big_p = rng.choice([0, 0, 0, 0.05, 0.15])
 
     def amount(um):
         """run-unique term amount p/10^j (p prime) with the rate
         p/10^j/um in [0.01, 500], so that every cross rate and inverse
         stays far above the 0.000001 limit of ExchangeRate."""
+        if rng.random() < big_p:
+            # a legal rate above 1 000 000 (a weak currency against gold):
+            # its inverse cannot be represented (< 0.000001), every other
+            # lookup can
+            while True:
+                p = rng.randrange(2 * 10 ** 6, 5 * 10 ** 7) * um + \
+                    rng.randrange(um)
+                if p not in used_primes:
+                    used_primes.add(p)
+                    return {'t': rng.choice(['dec', 'int', 'str', 'frac']),
+                            'v': str(p)}
         while True:
             if rng.random() < 0.5:
                 p = rng.choice(primes)
@@ -245,7 +257,16 @@ def gen(seed, run, tier='quick'):
         if k == 'update':
             v = _spell_validity(rng, convs[ci]['kind'], some_date())
             ops.append(['update', ci, v, rate_specs(ci)])
-            if rng.random() < 0.07:
+            if rng.random() < 0.05:
+                # one of the specs names the converter's own base currency
+                # (as object or by symbol): the statement does not say
+                # whether such a feed is refused or the entry ignored; it is
+                # either refused as a whole or taken without that entry
+                ops[-1].append({'base_spec': {
+                    'at': rng.randrange(4),
+                    'how': rng.choice(['obj', 'sym']),
+                    'amt': amount(1), 'um': {'t': 'int', 'v': 1}}})
+            elif rng.random() < 0.07:
                 # a feed of rate specs that, while it is being read, passes
                 # a correction for another period to the same converter
                 ops[-1].append({'v': _spell_validity(rng, convs[ci]['kind'],
@@ -869,7 +890,18 @@ def execute(h):
                 feed_error = int(core.digest([op[2], op[3]])[:8], 16) % 17 \
                     == 0 and pv is not None
                 nested = op[4] if len(op) > 4 and not feed_error and \
-                    pv is not None else None
+                    pv is not None and 'specs' in op[4] else None
+                base_spec = op[4]['base_spec'] if len(op) > 4 and \
+                    not feed_error and pv is not None and \
+                    'base_spec' in op[4] else None
+                if base_spec:
+                    bcur = curs[cfg['convs'][ci]['base'] % n_cur]
+                    lib_specs.insert(
+                        base_spec['at'] % (len(lib_specs) + 1),
+                        (bcur if base_spec['how'] == 'obj' else bcur.symbol,
+                         mk_amount(base_spec['amt']),
+                         mk_um(base_spec['um'])))
+                    bump(faults, 'rate_spec_names_the_base_currency')
                 if nested:
                     pv2 = RefRates.parse_validity(nested['v'])
                     mine = {s[0][0] for s in specs}
@@ -887,7 +919,7 @@ def execute(h):
                     # kind of validity
                     must_accept = False
                     bump(faults, 'rate_spec_iterable_raises')
-                elif not nested:
+                elif not nested and not base_spec:
                     must_accept = model.update(op[2], specs)
                 # rate_specs is documented as an Iterable: hand it over as
                 # list, tuple, iterator or generator
@@ -922,6 +954,9 @@ def execute(h):
                 o = observe(lambda: ('ok', convs[ci].update(
                     mk_validity(op[2]), container)))
                 accepted = o[0] == 'ok'
+                if base_spec:
+                    must_accept = model.update(op[2], specs) if accepted \
+                        else False
                 if nested:
                     # two updates of disjoint entries: whichever the
                     # converter takes for the more recent one, both count
